@@ -172,10 +172,16 @@ package hotspot
 //@   ensures[first-block] blocked(r) ==> gHotN > n0 && r == sel(gHotRes, gHotN - 1) && sel(gHotBlocked, gHotN - 1)
 //@   ensures[none-earlier] forall j Int :: n0 <= j && j < gHotN - (blocked(r) ? 1 : 0) ==> !sel(gHotBlocked, j)
 //@   ensures[pass-unchanged] !blocked(r) ==> r == old(ctx.RuleCheckResult)
+// every rule of the resource whose selected argument is present is consulted, in order, unless an earlier one blocked:
+// a rule without its argument is skipped, it does not end the checking of the rules after it
+//@   let hasArg = seqof(k, 0 <= k && k < len(tcs) && tcs[k].ExtractArgs(ctx) != nil)
+//@   ensures[every-rule-with-an-argument-consulted] !blocked(r) ==> gHotN == n0 + countTrue(hasArg, len(tcs))
 //@   ensures[sleeps-exactly-the-wait] forall j Int :: n0 <= j && j < gHotN ==> (j + 1 < gHotN ? sel(gHotSlept, j + 1) : slept_ns) == sel(gHotSlept, j) + sel(gHotWait, j)
 //@   ensures[no-other-sleep] (gHotN == n0 ==> slept_ns == old(slept_ns)) && (gHotN > n0 ==> sel(gHotSlept, n0) == old(slept_ns))
 //@   loop 1:
 //@     invariant[count] n0 <= gHotN && gHotN <= n0 + #i
+//@     invariant[consulted-count] gHotN == n0 + countTrue(hasArg, #i) && 0 <= countTrue(hasArg, #i)
+//@     invariant[consulted-in-rule-order] forall k Int :: 0 <= k && k < #i && sel(hasArg, k) ==> sel(gHotRecv, n0 + countTrue(hasArg, k)) == dynptr(tcs[k]) && sel(gHotArg, n0 + countTrue(hasArg, k)) == tcs[k].ExtractArgs(ctx) && 0 <= countTrue(hasArg, k) && countTrue(hasArg, k) < countTrue(hasArg, #i)
 //@     invariant[slept] forall j Int :: n0 <= j && j < gHotN ==> (j + 1 < gHotN ? sel(gHotSlept, j + 1) : slept_ns) == sel(gHotSlept, j) + sel(gHotWait, j)
 //@     invariant[slept-first] (gHotN == n0 ==> slept_ns == old(slept_ns)) && (gHotN > n0 ==> sel(gHotSlept, n0) == old(slept_ns))
 //@     invariant[no-block-yet] forall j Int :: n0 <= j && j < gHotN ==> !sel(gHotBlocked, j) && sel(gHotArg, j) != nil && sel(gHotBatch, j) == ctx.Input.BatchCount
@@ -243,32 +249,45 @@ package hotspot
 // existed before — the old table, the lists published in it, the caller's raw lists — is written; the raw map is recorded.
 //@ spec func allValidLists(m) = (forall r Str :: has(m, r) ==> allocated(base(m[r]))) && (forall r Str :: forall k Int :: has(m, r) && 0 <= k && k < len(m[r]) ==> validRule(m[r][k]))
 //@ func onRuleUpdate(rawResRulesMap) err
-//@   props C13
+//@   props C13, C14
 //@   requires[holds-the-update-lock]{C15} wlockcount(updateRuleMux) > 0
-//@   requires tcMap != nil
+//@   requires tcMap != nil && allocated(tcMap)
 //@   ensures[raw-recorded] err == nil ==> currentRules == rawResRulesMap
 //@   ensures[new-table-swapped-in] err == nil ==> tcMap != nil && fresh(tcMap)
+//@   let pub = tcMap
+//@   ensures[published-lists-not-rewritten]{C13,C15} forall r Str :: forall k Int :: old(has(pub, r)) && old(allocated(base(pub[r]))) && 0 <= k && k < len(old(pub[r])) ==> old(pub[r])[k] == old(pub[r][k])
 //@   modifies tcMap, currentRules
 //@   loop 1:
 //@     invariant[valid-map-is-new] validResRulesMap != nil && fresh(validResRulesMap) && allValidLists(validResRulesMap)
-//@     invariant[nothing-else-written] frame()
+//@     invariant[nothing-else-written]{seq} frame()
+//@     invariant[published-lists-untouched]{conc} forall r Str :: forall k Int :: old(has(pub, r)) && old(allocated(base(pub[r]))) && 0 <= k && k < len(old(pub[r])) ==> old(pub[r])[k] == old(pub[r][k])
 //@   loop 2:
 //@     invariant[valid-map-is-new] validResRulesMap != nil && fresh(validResRulesMap) && allValidLists(validResRulesMap)
 //@     invariant[valid-list-is-new] (cap(validResRules) == 0 || fresh(base(validResRules))) && (forall k Int :: 0 <= k && k < len(validResRules) ==> validRule(validResRules[k]))
 //@     invariant[valid-list-is-not-in-the-map-yet] forall r Str :: has(validResRulesMap, r) ==> base(validResRulesMap[r]) != base(validResRules)
-//@     invariant[nothing-else-written] frame()
+//@     invariant[nothing-else-written]{seq} frame()
+//@     invariant[published-lists-untouched]{conc} forall r Str :: forall k Int :: old(has(pub, r)) && old(allocated(base(pub[r]))) && 0 <= k && k < len(old(pub[r])) ==> old(pub[r])[k] == old(pub[r][k])
 //@   loop 3:
 //@     invariant[clone-is-new] tcMapClone != nil && fresh(tcMapClone) && (forall r Str :: has(tcMapClone, r) ==> fresh(base(tcMapClone[r])))
+//@     invariant[clone-lists-allocated] forall r Str :: has(tcMapClone, r) ==> allocated(base(tcMapClone[r])) && base(tcMapClone[r]) != 0
+//@     invariant[clone-domain] forall r Str :: has(tcMapClone, r) ==> has(tcMap, r) && sel(#seen, r) && len(tcMapClone[r]) == len(tcMap[r])
+//@     invariant[clone-is-complete-so-far] forall r Str :: has(tcMap, r) && sel(#seen, r) ==> has(tcMapClone, r)
+//@     invariant[clone-lists-are-separate] forall r Str :: forall q Str :: has(tcMapClone, r) && has(tcMapClone, q) && r != q && allocated(base(tcMapClone[r])) && allocated(base(tcMapClone[q])) ==> base(tcMapClone[r]) != base(tcMapClone[q])
 //@     invariant[valid-lists] allValidLists(validResRulesMap)
-//@     invariant[nothing-else-written] frame()
+//@     invariant[nothing-else-written]{seq} frame()
+//@     invariant[published-lists-untouched]{conc} forall r Str :: forall k Int :: old(has(pub, r)) && old(allocated(base(pub[r]))) && 0 <= k && k < len(old(pub[r])) ==> old(pub[r])[k] == old(pub[r][k])
 //@   loop 4:
 //@     invariant[new-table] m != nil && fresh(m)
 //@     invariant[clone-lists-are-private] forall r Str :: has(tcMapClone, r) ==> fresh(base(tcMapClone[r]))
+//@     invariant[clone-lists-allocated] forall r Str :: has(tcMapClone, r) ==> allocated(base(tcMapClone[r])) && base(tcMapClone[r]) != 0
+//@     invariant[clone-lists-are-separate] forall r Str :: forall q Str :: has(tcMapClone, r) && has(tcMapClone, q) && r != q && allocated(base(tcMapClone[r])) && allocated(base(tcMapClone[q])) ==> base(tcMapClone[r]) != base(tcMapClone[q])
+//@     invariant[clone-domain] forall r Str :: (has(tcMapClone, r) <==> has(tcMap, r)) && (has(tcMap, r) ==> len(tcMapClone[r]) == len(tcMap[r]))
 //@     invariant[valid-lists] allValidLists(validResRulesMap)
-//@     invariant[nothing-else-written] frame()
+//@     invariant[nothing-else-written]{seq} frame()
+//@     invariant[published-lists-untouched]{conc} forall r Str :: forall k Int :: old(has(pub, r)) && old(allocated(base(pub[r]))) && 0 <= k && k < len(old(pub[r])) ==> old(pub[r])[k] == old(pub[r][k])
 //@ func LoadRules(rules) (changed, err)
 //@   props C13
-//@   objinv tcMap != nil
+//@   objinv tcMap != nil && allocated(tcMap)
 //@   panics never
 //@   sets gHotLoadN = old(gHotLoadN) + 1
 //@   sets gHotLoadArg = rules
